@@ -384,9 +384,15 @@ func runE2E(casesPath string, nrand int) {
 	// it expired. (TLS clients are left out: a handshake that is slower than the deadline fails by design.)
 	// Each pause costs one deadline: the cases with a pause after the first byte, plus a seeded sample.
 	types.DefaultConnReadTimeout = 150 * time.Millisecond
-	var first, rest []zcase
+	var first, rest, grown []zcase
 	for _, z := range tz {
 		if len(z.Pauses) == 0 {
+			continue
+		}
+		if z.Prior > 0 { // a large first request, then a pause while part of the next one is on its way
+			if z.Pauses[0]%3 != 0 {
+				grown = append(grown, z)
+			}
 			continue
 		}
 		if z.Cuts[0] == 1 && z.Pauses[0] == 1 {
@@ -407,10 +413,18 @@ func runE2E(casesPath string, nrand int) {
 	if len(rest) > nr {
 		rest = rest[:nr]
 	}
-	for ci, z := range append(first, rest...) {
+	rng.Shuffle(len(grown), func(i, j int) { grown[i], grown[j] = grown[j], grown[i] })
+	if len(grown) > nf {
+		grown = grown[:nf]
+	}
+	for ci, z := range append(append(first, rest...), grown...) {
 		z := z
 		for _, kind := range []string{"auto", "inspector"} {
-			one("e2e-timeouts", kind, shapesFor(z.Frames, ci), func(r *run) ([]int, []int) {
+			cls := "e2e-timeouts"
+			if z.Prior > 0 {
+				cls = "e2e-timeouts-grown-buffer"
+			}
+			one(cls, kind, caseShapes(z, ci), func(r *run) ([]int, []int) {
 				c := concreteCuts(r, z)
 				return c, lastPauses
 			})
